@@ -19,13 +19,13 @@ INJECT = True
 RULE = ('case kinds: (faulty_server) a scripted peer plays the server side of the RemoteWorker handshake and cuts the control-address message (data connection) or '
         'the runtime-info message (control connection) at byte offset k with FIN or RST, refuses the control connection, or goes silent and closes later; '
         '(unknown_ctx) a real server is asked for a worker in a context id that does not exist; (child_dies) the child of a process/remote worker kills itself '
-        '(SIGKILL/SIGTERM) at the n-th traced line before it has reported its identity; (unreachable) nobody listens on the port. x {one-shot, persistent}. '
+        '(SIGKILL/SIGTERM) at the n-th traced line before it has reported its identity; (unreachable) nobody listens on the port; (server_dies) a real server SIGKILLs itself at the n-th traced line of its main thread while it handles the request (from the first line of the server-side __setstate__ of the worker until it is back in accept()). x {one-shot, persistent}. '
         'Oracle: the constructor returns or raises within 15 s; a returned worker has a pid that is not the pid of the parent and answers wait(); after a failure no '
         'process carrying the case tag is left. Non-trivial = fault strictly inside the handshake; distinct = distinct case.')
 ASSUMPTIONS = ['15 s separates "finite" from "hung": no timeout inside the handshake code exceeds 5 s', 'the scripted peer closes its sockets at the latest 1.5 s after going silent']
 SHRINK = 'none'
 TIME_BUDGET = {'quick': 170, 'thorough': 1700}
-REQUIRED = {'quick': {'kind:faulty_server': 100, 'kind:child_dies': 40, 'kind:unknown_ctx': 4, 'step:addr_msg': 50, 'step:info_msg': 12},
+REQUIRED = {'quick': {'kind:faulty_server': 100, 'kind:child_dies': 40, 'kind:unknown_ctx': 4, 'step:addr_msg': 50, 'step:info_msg': 12, 'server_killed_mid_request': 25},
             'thorough': {'kind:faulty_server': 1000, 'kind:child_dies': 300}}
 LIMIT = 15.0
 
@@ -48,7 +48,8 @@ def strategy(tier):
         'n_raw': st.integers(0, 200), 'sig': st.sampled_from(['SIGKILL', 'SIGTERM'])})
     uc = st.fixed_dictionaries({'kind': st.just('unknown_ctx'), 'worker': st.sampled_from(['remote', 'p_remote']), 'ctx': st.integers(1000, 1005)})
     ur = st.fixed_dictionaries({'kind': st.just('unreachable'), 'worker': st.sampled_from(['remote', 'p_remote'])})
-    return st.one_of(fs, fs, fs, cd, cd, uc, ur)
+    sd = st.fixed_dictionaries({'kind': st.just('server_dies'), 'worker': st.sampled_from(['remote', 'p_remote']), 'n_raw': st.integers(0, 2000)})
+    return st.one_of(fs, fs, fs, cd, cd, uc, ur, sd, sd)
 
 
 def exhaustive(tier, shard, nshards):
@@ -188,6 +189,41 @@ def _cls(worker):
     return IC.KINDS[worker]
 
 
+def _server_census(ctx, worker):
+    """line events of the server's main thread while it serves exactly one worker request"""
+    key = ('server_census', worker)
+    cache = ctx.data.setdefault('census', {})
+    if key in cache:
+        return cache[key]
+    from pyworkers.remote_server import RemoteServerProcess
+    name = IC.fresh_name(ctx, 'srvcensus')
+    inject.arm(name, 'census')
+    srv = bounded(RemoteServerProcess, 30, ('127.0.0.1', 0), name=name)
+    try:
+        persistent = worker.startswith('p_')
+        w = bounded(_cls(worker), 25, vtargets.sq, args=None if persistent else [3], host=srv.addr)
+        bounded(w.wait, 20, 10)
+    finally:
+        try:
+            bounded(srv.terminate, 15, timeout=3)
+        except BaseException:
+            pass
+    tr = inject.trace(name)
+    inject.cleanup(name)
+    # the window of interest: from the first event of the worker's server-side __setstate__ until the server is back in accept()
+    start = next((e[0] for e in tr if e[2] == '__setstate__'), None)
+    end = None
+    if start is not None:
+        seen_setstate_end = False
+        for e in tr:
+            if e[0] > start and e[1] == 'remote_server.py' and e[2] == 'run' and 'accept' in IC.line_text_any('remote_server', e[3]):
+                end = e[0]
+                break
+    res = (start, end if end is not None else (len(tr) if start is not None else None))
+    cache[key] = res
+    return res
+
+
 def run_case(case, ctx):
     out = Out()
     kind = case['kind']
@@ -220,6 +256,22 @@ def run_case(case, ctx):
 
             def ctor():
                 return cls(vtargets.sq, args=None if persistent else [3], host=dead, name=IC.fresh_name(ctx, 'c20'))
+        elif kind == 'server_dies':
+            from pyworkers.remote_server import RemoteServerProcess
+            start, end = _server_census(ctx, worker)
+            if start is None or end is None or end <= start:
+                out.excluded = 'no usable census of the server'
+                return out
+            n = start + case['n_raw'] % (end - start)
+            sname = IC.fresh_name(ctx, 'c20srv')
+            inject.arm(sname, 'kill', n, 'SIGKILL')
+            before = set(census(ctx.tag))
+            psrv = bounded(RemoteServerProcess, 30, ('127.0.0.1', 0), name=sname)
+            res['n'] = n
+            site = f'server_dies:{worker}'
+
+            def ctor():
+                return cls(vtargets.sq, args=None if persistent else [3], host=psrv.addr, name=IC.fresh_name(ctx, 'c20'))
         else:  # child_dies
             c = {'kind': worker, 'scenario': 'persist' if persistent else 'quick_return', 'items': [], 'close': True}
             if worker.endswith('remote'):
@@ -250,10 +302,17 @@ def run_case(case, ctx):
         if kind == 'child_dies':
             res['reached'] = bool(inject.wait_reached(name, 0.2))
             inject.cleanup(name)
+        if kind == 'server_dies':
+            r = inject.wait_reached(sname, 0.3)
+            res['reached'] = bool(r)
+            res['server_site'] = f"{r['file']}:{r['func']}:{r['line']}" if r else None
+            inject.cleanup(sname)
+            if r:
+                out.label('server_killed_mid_request')
         if fs is not None:
             res['cut'] = fs.effective_cut
             res['msg_len'] = fs.msg_len
-        out.nontrivial = kind in ('child_dies', 'unknown_ctx') or (kind == 'faulty_server' and (case['step'] not in ('addr_msg', 'info_msg') or (fs.effective_cut or 0) > 0))
+        out.nontrivial = kind in ('child_dies', 'unknown_ctx', 'server_dies') or (kind == 'faulty_server' and (case['step'] not in ('addr_msg', 'info_msg') or (fs.effective_cut or 0) > 0))
         out.key = dict(case, eff=res.get('cut'), n=res.get('n'))
         if res['ctor'] == 'blocked':
             out.viol('constructor_hangs', site, f'constructor did not return or raise within {LIMIT}s ({res})')
@@ -287,6 +346,13 @@ def run_case(case, ctx):
                 pass
         if fs is not None:
             fs.close()
+        if kind == 'server_dies':
+            try:
+                if psrv.pid and pid_alive(psrv.pid):
+                    os.kill(psrv.pid, 9)
+            except Exception:
+                pass
+            kill_pids([p for p in census(ctx.tag) if p not in before])
         if kind in ('unknown_ctx', 'child_dies') and worker.endswith('remote') and not IC.server_healthy(ctx):
             # a wedged or dead server is C11's business; here it only needs replacing
             out.label('server_replaced')
